@@ -6,11 +6,12 @@ namespace Httpcache
 
 def inList (l : List String) (f : Str) : Bool := (l.map String.toList).contains f
 
-def byQValue : List String := ["Accept", "Accept-Charset", "Accept-Language"]
-def byEncoding : List String := ["Content-Encoding", "Accept-Encoding", "TE"]
-def byTimeInsensitive : List String := ["If-Modified-Since", "If-Unmodified-Since", "Date"]
-def byOrderInsensitive : List String := ["Cache-Control", "Connection", "Content-Language", "Expect", "Pragma", "Upgrade", "Vary", "Via"]
-def byCaseInsensitive : List String := ["Content-Type", "Content-Disposition", "Host", "Referer", "User-Agent", "Server", "Origin"]
+open Generated in
+def byQValue := Generated.byQValue
+def byEncoding := Generated.byEncoding
+def byTimeInsensitive := Generated.byTimeInsensitive
+def byOrderInsensitive := Generated.byOrderInsensitive
+def byCaseInsensitive := Generated.byCaseInsensitive
 
 /-- normalizeOrderInsensitive -/
 def normalizeOrderInsensitive (v : Str) : Str :=
